@@ -55,7 +55,9 @@ var c06scenarios = []string{"g-send", "g-prompt", "g-inter", "g-open", "n-send",
 	// NETCONF: subscription establishment, a transport that echoes requests
 	"nc10-sub", "nc11-sub", "nc10-rpc-echo", "nc11-rpc-echo",
 	// platform-built drivers: loss during the on-open steps inside Open, during Close's on-close steps
-	"p-iosxe-open", "p-syn-open", "p-gen-open", "p-iosxe-close"}
+	"p-iosxe-open", "p-syn-open", "p-gen-open", "p-iosxe-close",
+	// operations built on other operations: loss in the middle of their sequence
+	"n-config1", "n-configf", "g-batchf"}
 
 type c06scen struct {
 	Name  string
@@ -332,6 +334,20 @@ default:
 `
 }
 
+// c06respWithErr marks an operation that returned a response object together with its error.
+const c06respWithErr = "RESPONSE-WITH-ERROR:"
+
+// c06linesFile writes the lines to a file of this process' own (for the …FromFile operations).
+func c06linesFile(lines []string) string {
+	f, err := os.CreateTemp("", "c06-lines-*")
+	if err != nil {
+		panic(err)
+	}
+	defer f.Close()
+	_, _ = f.WriteString(strings.Join(lines, "\n") + "\n")
+	return f.Name()
+}
+
 func c06privs() map[string]*network.PrivilegeLevel {
 	return map[string]*network.PrivilegeLevel{
 		"exec": {Name: "exec", Pattern: facts.C06Patterns["exec"], PreviousPriv: ""},
@@ -446,11 +462,21 @@ func (s c06scen) build() *c06env {
 				}
 				return r.Result, nil
 			}
-		case "g-batch":
-			// SendCommands: the loss strikes somewhere inside the batch
+		case "g-batch", "g-batchf":
+			// SendCommands / SendCommandsFromFile: the loss strikes somewhere inside the batch; on an
+			// error no response object may come back (it would present the completed part as a result)
 			e.op = func() (string, error) {
-				m, err := d.SendCommands([]string{s.cmd, "show clock", s.cmd})
+				var m *response.MultiResponse
+				var err error
+				if s.base() == "g-batchf" {
+					m, err = d.SendCommandsFromFile(c06linesFile([]string{s.cmd, "show clock", s.cmd}))
+				} else {
+					m, err = d.SendCommands([]string{s.cmd, "show clock", s.cmd})
+				}
 				if err != nil {
+					if m != nil {
+						return fmt.Sprintf("%s%d responses", c06respWithErr, len(m.Responses)), err
+					}
 					return "", err
 				}
 				return m.JoinedResult(), nil
@@ -631,14 +657,38 @@ func (s c06scen) build() *c06env {
 			// the operation under test is Close itself: the loss strikes during its on-close steps
 			e.op = func() (string, error) { return "", d.Close() }
 		}
-		if s.base() == "n-config" {
-			// SendConfigs: navigate exec -> privilege-exec (password) -> configuration, then a batch
+		switch s.base() {
+		case "n-config", "n-configf":
+			// SendConfigs / SendConfigsFromFile: navigate exec -> privilege-exec (password) ->
+			// configuration, then a batch
 			e.op = func() (string, error) {
-				m, err := d.SendConfigs([]string{"interface Gi0/1", "description uplink"})
+				lines := []string{"interface Gi0/1", "description uplink"}
+				var m *response.MultiResponse
+				var err error
+				if s.base() == "n-configf" {
+					m, err = d.SendConfigsFromFile(c06linesFile(lines))
+				} else {
+					m, err = d.SendConfigs(lines)
+				}
 				if err != nil {
+					if m != nil {
+						return fmt.Sprintf("%s%d responses", c06respWithErr, len(m.Responses)), err
+					}
 					return "", err
 				}
 				return m.JoinedResult(), nil
+			}
+		case "n-config1":
+			// SendConfig: one multi-line string, built on SendConfigs, collapsed into one response
+			e.op = func() (string, error) {
+				r, err := d.SendConfig("interface Gi0/1\ndescription uplink")
+				if err != nil {
+					if r != nil {
+						return c06respWithErr + r.Result, err
+					}
+					return "", err
+				}
+				return r.Result, nil
 			}
 		}
 		e.later = []func() (string, error){func() (string, error) { return d.GetPrompt() }, send}
@@ -1174,11 +1224,11 @@ func (s c06scen) program() []c06phase {
 		return append(p, c06W("terminal monitor"), c06W("\n"))
 	case "p-gen-open":
 		return []c06phase{c06W("stty cols 200"), c06W("\n")}
-	case "g-batch":
+	case "g-batch", "g-batchf":
 		p := sendG(s.cmd, "Channel.promptPattern")
 		p = append(p, sendG("show clock", "Channel.promptPattern")...)
 		return append(p, sendG(s.cmd, "Channel.promptPattern")...)
-	case "n-config":
+	case "n-config", "n-config1", "n-configf":
 		p := []c06phase{c06W("\n"), c06P(c06joined),
 			c06W("enable"), c06E("enable"), c06W("\n"), c06P("C06.exec+C06.privexec+C06.password"),
 			c06W(s.secret), c06W("\n"), c06P("C06.exec+C06.privexec+C06.privexec"),
@@ -1863,6 +1913,11 @@ func c06judge(c *ctx, sw *c06sweep, out map[int]c06out, answer string) {
 		op := o.obs.Op
 		if op.Hang {
 			res.Fail("oracle", caseLine, fmt.Sprintf("operation did not return within %v after %s at byte %d (timeout is %v)", c06Watch, kind, k, c06Timeout), "hang:operation")
+			continue
+		}
+		// ---- an error never comes with a response object that presents the completed part as a result
+		if op.Ident != "nil" && strings.HasPrefix(op.Result, c06respWithErr) {
+			res.Fail("oracle", caseLine, fmt.Sprintf("%s at byte %d of %d: the operation returned the error (%s) together with a response object (%s)", kind, k, sw.L, op.Ident, strings.TrimPrefix(op.Result, c06respWithErr)), "response-with-error")
 			continue
 		}
 		// ---- oracle on the operation in flight
